@@ -3,7 +3,9 @@ package ribhist
 import (
 	"fmt"
 	"os"
+	"runtime"
 	"strconv"
+	"sync"
 	"time"
 
 	"verif/mc"
@@ -21,8 +23,31 @@ func Budget(tier string, quick, thorough time.Duration) time.Time {
 	if tier == "thorough" {
 		return time.Now().Add(thorough)
 	}
-	return time.Now().Add(quick)
+	return time.Now().Add(time.Duration(float64(quick) * loadScale()))
 }
+
+// loadScale stretches the QUICK budgets on a machine that is busy with other work when the process starts: the
+// budgets are wall-clock safety nets around searches with fixed targets (depth, deviation bound), sized for an idle
+// 16-core machine; with the cores shared, the same targets need proportionally more wall-clock time. A check that
+// reaches its targets does not use the extra time. 1 on an idle machine, at most 5.
+var loadScale = sync.OnceValue(func() float64 {
+	b, err := os.ReadFile("/proc/loadavg")
+	if err != nil {
+		return 1
+	}
+	var l1 float64
+	if _, err := fmt.Sscan(string(b), &l1); err != nil {
+		return 1
+	}
+	s := 1.5 * l1 / float64(runtime.NumCPU())
+	switch {
+	case s < 1:
+		return 1
+	case s > 5:
+		return 5
+	}
+	return s
+})
 
 // Clock splits the budget of a check over its searches: each search may use an equal share of what is left (time a
 // search does not use rolls over to the later ones).
@@ -89,7 +114,7 @@ var c01Letters = []string{
 // RunC01 decides C01 at the RIB tier.
 func RunC01(rep *report.Report, tier string) {
 	depth := 4
-	ck := NewClock(tier, 100*time.Second, 20*time.Minute, 9)
+	ck := NewClock(tier, 100*time.Second, 20*time.Minute, 10)
 	if tier == "thorough" {
 		depth = 6
 	}
@@ -109,6 +134,10 @@ func RunC01(rep *report.Report, tier string) {
 		o := &Options{Letters: letters, NoFwdRefs: nofwd, Checks: Checks{Fold: true}}
 		Search(rep, fmt.Sprintf("rib/forward-refs-%v", !nofwd), o, depth, ck.Next())
 	}
+	// the RIB without its consistency checks (rib.DisableRIBCheckFn, as FromGetResponses builds it): nothing is
+	// held or refused for its references, the contents are still the fold of what was acknowledged
+	o = &Options{Letters: letters, NoCheckFn: true, Checks: Checks{Fold: true}}
+	Search(rep, "rib/check-functions-disabled", o, depth-1, ck.Next())
 }
 
 // fullInits are the start states of the searches over the generated, symmetric alphabet (short histories from rich
